@@ -93,6 +93,14 @@ fn op_dispatch(op: &str, a: &[&str]) -> String {
             let start: u32 = a.get(2).map(|s| s.parse().unwrap()).unwrap_or(0);
             lex_json(&src, mode_of(a[0]), start)
         }
+        "cov" => {
+            // parse (module mode) and report the grammar productions reduced (hook H3): {"ok":bool,"red":[…]}
+            let src = unhex(a[0]);
+            let _ = rp::verif::take_reductions();
+            let ok = rp::parse(&src, Mode::Module, "<v>").is_ok();
+            let red: Vec<String> = rp::verif::take_reductions().iter().map(|x| x.to_string()).collect();
+            format!("{{\"ok\":{},\"red\":[{}]}}", ok, red.join(","))
+        }
         "lexb" => {
             // lex + the line-boundary records of hook H1: {"toks":…, "bounds":[[location, at_begin_of_line, nesting, [[tabs, spaces]…]]…]}
             let src = unhex(a[1]);
